@@ -46,6 +46,9 @@ type Shape struct {
 	Preamble int        `json:"preamble,omitempty"` // old csv: junk lines before the header
 	EDI      *EDIDelims `json:"edi,omitempty"`
 	Envelope bool       `json:"envelope,omitempty"` // edi/xml/json: records wrapped in a non-target envelope
+	// ReplaceQuotes sets replace_double_quotes (csv, csv2): the reader stack gets a quote-replacing reader. Quoted
+	// fields then lose their quoting, so only properties that make no per-record assumption enable it.
+	ReplaceQuotes bool `json:"replace_quotes,omitempty"`
 }
 
 // Rec is one logical record.
@@ -76,6 +79,8 @@ type ShapeOpts struct {
 	NoIntCol  bool
 	PlainOnly bool // pass-through transform only
 	MaxXform  int  // > 0: draw the transform flavour from 0..MaxXform (3 = cache-sensitive flavour)
+	// AllowReplaceQuotes lets csv / csv2 shapes set replace_double_quotes
+	AllowReplaceQuotes bool
 	Encodings []string
 }
 
@@ -151,6 +156,9 @@ func DrawShape(t *rapid.T, o ShapeOpts) Shape {
 	}
 	if len(o.Encodings) > 0 {
 		s.Encoding = rapid.SampledFrom(o.Encodings).Draw(t, "encoding")
+	}
+	if o.AllowReplaceQuotes && (s.Format == "csv" || s.Format == "csv2") {
+		s.ReplaceQuotes = rapid.IntRange(0, 3).Draw(t, "replaceQuotes") == 0
 	}
 	return s
 }
@@ -429,6 +437,9 @@ func (s Shape) fileDecl() obj {
 			}
 		}
 		fd := obj{"delimiter": s.Delim, "columns": cols, "data_row_index": 1}
+		if s.ReplaceQuotes {
+			fd["replace_double_quotes"] = true
+		}
 		if s.Header {
 			fd["header_row_index"] = s.Preamble + 1
 			fd["data_row_index"] = s.Preamble + 2
@@ -451,7 +462,11 @@ func (s Shape) fileDecl() obj {
 			if s.Variant == 1 {
 				rec["rows"] = 2
 			}
-			return obj{"delimiter": s.Delim, "records": []interface{}{rec}}
+			fd := obj{"delimiter": s.Delim, "records": []interface{}{rec}}
+			if s.ReplaceQuotes {
+				fd["replace_double_quotes"] = true
+			}
+			return fd
 		default:
 			cols := []interface{}{}
 			for i := 0; i < s.NCols; i++ {
@@ -462,10 +477,14 @@ func (s Shape) fileDecl() obj {
 				scols = append(scols, obj{"name": subName(k), "index": k + 2})
 			}
 			d := regexpQuote(s.Delim)
-			return obj{"delimiter": s.Delim, "records": []interface{}{obj{
+			fd := obj{"delimiter": s.Delim, "records": []interface{}{obj{
 				"name": "REC", "header": "^R" + d, "is_target": true, "columns": cols,
 				"child_records": []interface{}{obj{"name": "SUB", "header": "^S" + d, "columns": scols}},
 			}}}
+			if s.ReplaceQuotes {
+				fd["replace_double_quotes"] = true
+			}
+			return fd
 		}
 	case "fixed-length":
 		switch s.Variant {
